@@ -107,3 +107,41 @@ def lemma(x, c):
       requires=["inv_cbloom(x)", "geo_bloom(x)", "x._num_bits < 2**53", "0 <= c < len(x._bloom)",
                 "0 <= x._est_elements < 2**64 and 0 <= x._els_added < 2**64",
                 "all(0 <= x._bloom[q] < 2**32 for q in range(0, len(x._bloom)))"])
+
+
+lemma("P.C05.bloom_hex_roundtrip", '''
+def lemma(x, c):
+    h = x.export_hex()
+    n = len(x._bloom)
+    assert len(h) == 2 * (n + 20) and len(unhex(h)) == n + 20
+    assert be_bytes(unhex(h), len(unhex(h)) - 20, 8) == x._est_elements
+    assert be_bytes(unhex(h), len(unhex(h)) - 12, 8) == x._els_added
+    assert f32_at_be(unhex(h), len(unhex(h)) - 4) == x._fpr
+    y = BloomFilter(None, None, None, h, x._hash_func)
+    assert y._est_elements == x._est_elements and y._els_added == x._els_added and y._fpr == x._fpr
+    assert y._num_bits == x._num_bits and y._number_hashes == x._number_hashes and y._bloom_length == x._bloom_length
+    assert y._hash_func == x._hash_func and len(y._bloom) == n
+    assert hex_byte(h, c) == x._bloom[c]
+    assert y._bloom[c] == x._bloom[c]
+''', properties=["C05", "C01"], params={"x": "obj:BloomFilter", "c": "int"},
+      requires=["inv_bloom_mem(x)", "geo_bloom(x)", "x._num_bits < 2**53", "0 <= c < len(x._bloom)",
+                "0 <= x._est_elements < 2**64 and 0 <= x._els_added < 2**64"])
+
+lemma("P.C05.counting_bloom_hex_roundtrip", '''
+def lemma(x, c):
+    h = x.export_hex()
+    n = len(x._bloom)
+    assert len(h) == 2 * (4 * n + 20) and len(unhex(h)) == 4 * n + 20
+    assert be_bytes(unhex(h), len(unhex(h)) - 20, 8) == x._est_elements
+    assert be_bytes(unhex(h), len(unhex(h)) - 12, 8) == x._els_added
+    assert f32_at_be(unhex(h), len(unhex(h)) - 4) == x._fpr
+    y = CountingBloomFilter(None, None, None, h, x._hash_func)
+    assert y._est_elements == x._est_elements and y._els_added == x._els_added and y._fpr == x._fpr
+    assert y._num_bits == x._num_bits and y._number_hashes == x._number_hashes
+    assert y._hash_func == x._hash_func and len(y._bloom) == n
+    assert le_bytes(unhex(h), 4 * c, 4) == x._bloom[c]
+    assert y._bloom[c] == x._bloom[c]
+''', properties=["C05", "C08"], params={"x": "obj:CountingBloomFilter", "c": "int"},
+      requires=["inv_cbloom(x)", "geo_bloom(x)", "x._num_bits < 2**53", "0 <= c < len(x._bloom)",
+                "0 <= x._est_elements < 2**64 and 0 <= x._els_added < 2**64",
+                "all(0 <= x._bloom[q] < 2**32 for q in range(0, len(x._bloom)))"])
